@@ -157,6 +157,10 @@ def main():
             c = dict(c, fl="rich")        # composite feature transforms with repeated argument indices (driver-side dimension)
         jobs.append({"id": k, "cfg": c, "seed": ck.seed * 1000 + k, "unrestricted": u, "mol": (("H" if k % 12 == 7 else "OH") if u else ("H2O_ghost" if k % 12 == 6 else "H2O")),
                      "basis": ("cc-pvdz" if k % 4 == 0 else "sto-3g") if quick else ("cc-pvdz", "sto-3g", "6-31g*", "sto-3g", "6-31g")[k % 5], "ndir": 2})
+        if jobs[-1]["mol"] == "H":
+            # one electron: in a basis with several functions a random orbital has nodal surfaces, where tau / rho diverges
+            # and the large-exponent guard rightly refuses the point (C08 / C18); the minimal basis gives the node-free 1s density
+            jobs[-1]["basis"] = "sto-3g"
     ck.log("replaying %d configurations end to end" % len(jobs))
     results = run_workers(os.path.abspath(__file__), [[j] for j in jobs] and jobs, nproc=16, timeout=7000)
     for res in results:
